@@ -61,12 +61,12 @@ BATCHES = {
 		return *this;""", """		BOOST_MULTI_ASSERT(size() == other.size());
 		if(! is_empty()) { adl_copy_n(std::begin(other), size(), begin()); }
 		return *this;""", 1),
-        ("array_ref.hpp", """		BOOST_MULTI_ASSERT(this->extension() == other.extension());
+        ("array_ref.hpp", """		BOOST_MULTI_ASSERT(this->extensions() == other.extensions());
 		this->elements() = other.elements();
 		return *this;
 	}
 
-	constexpr void swap(subarray&& other) && noexcept(std::is_nothrow_swappable_v<T>) {""", """		BOOST_MULTI_ASSERT(this->extension() == other.extension());
+	constexpr void swap(subarray&& other) && noexcept(std::is_nothrow_swappable_v<T>) {""", """		BOOST_MULTI_ASSERT(this->extensions() == other.extensions());
 		adl_copy(other.begin(), other.end(), this->begin());
 		return *this;
 	}
@@ -80,9 +80,9 @@ BATCHES = {
 		arxiv& ArTraits::make_nvp("extensions", extensions_);""", """		typename array::extensions_type extensions_{this->extensions()};
 		arxiv& ArTraits::make_nvp("extensions", extensions_);""", 1),
         ("array_ref.hpp", "		return *(this->base_ + (idx*this->stride() - this->offset()));", "		return *((this->base_ - this->offset()) + idx*this->stride());", 1),
-        ("array_ref.hpp", """		ns_ = xs_.from_linear(n_ + n);
+        ("array_ref.hpp", """		ns_ = indices_at_(n_ + n);
 		n_ += n;""", """		n_ += n;
-		ns_ = xs_.from_linear(n_);""", 1),
+		ns_ = indices_at_(n_);""", 1),
     ],
     "siblings": [
         ("array.hpp", "if(adl_distance(first, last) == this->size() && (first == last || multi::extensions(*first) == multi::extensions(*this->begin()))) {",
